@@ -5,6 +5,7 @@ pub mod net;
 pub mod oracles;
 pub mod qlogcap;
 pub mod aasim;
+pub mod protsim;
 
 use std::{
     collections::BTreeMap,
